@@ -613,13 +613,59 @@ def unit_schema(U):
     IM_.prove_plain_schema(U, "C04", ["features", "duplicates", "autoincrements"])
 
 
+def unit_step_key(U):
+    """the key a feature is STORED under is the one id_spec fixes, also for a Feature object that arrives with an `id` of its
+    own (taken from another database, say): both importers' loop bodies insert the row under _id_handler(f)"""
+    import gffutils.create as C_
+    from pyvc import ghostdb as G_, sqlmodel as Q_
+    for cls, fmt in ((C_._GFFDBCreator, "gff"), (C_._GTFDBCreator, "gtf")):
+        for preset in ("none", "stale"):
+            it = Interp()
+            IM.install_json(it)
+
+            def run(ctx, cls=cls, preset=preset):
+                fid, _ = IM.sval("f.key")
+                stale, _ = IM.sval("f.stale_id")
+                attrs = {"ID": [fid]}
+                if cls is C_._GTFDBCreator:
+                    attrs.update({"gene_id": ["g"], "transcript_id": ["t"]})
+                f, _ = IM.sym_feature("f", attrs)
+                object.__setattr__(f, "featuretype", "exon")        # (what the key is does not depend on the other columns)
+                if preset == "stale":
+                    ctx.assume(stale.z3() != fid.z3())
+                    object.__setattr__(f, "id", stale)
+                cr = IM.blank_creator(cls, G_.GhostConn(), id_spec="ID", counters=IM.SymMap("cnt"))
+                ctx.stash.update(fid=fid, f=f)
+                it.call(cls._populate_from_lines, [cr, [f]], {})
+                return f
+
+            def replay(m, fmt=fmt):
+                src = gffutils.create_db([_mk("c", "exon", {"exon_id": ["e1"], "ID": ["e1"], "gene_id": ["g"], "transcript_id": ["t"]})], ":memory:", id_spec=None if fmt == "gff" else {"exon": "no_such"},
+                                         dialect=dict(constants.dialect, fmt="gff3" if fmt == "gff" else "gtf"), disable_infer_genes=True, disable_infer_transcripts=True) if False else None
+                feats = [_mk("c", "exon", {"ID": ["e1"], "gene_id": ["g"], "transcript_id": ["t"]})]
+                feats[0].id = "exon_99"
+                d = dict(constants.dialect, fmt="gff3" if fmt == "gff" else "gtf")
+                db = gffutils.create_db(feats, ":memory:", id_spec="ID", dialect=d, disable_infer_genes=True, disable_infer_transcripts=True)
+                got = sorted(f.id for f in db.all_features())
+                return {"inputs": {"feature": str(feats[0]), "its .id before the import": "exon_99", "id_spec": "ID", "format": fmt}, "expected": ["e1"], "observed": got, "violates": got != ["e1"]}
+            for p in U.explore(run, it):
+                ok = p.kind == "return"
+                goal = z3.BoolVal(False)
+                if ok:
+                    ins = [e for e in IM.classify(p.ctx.effects) if e.kind == "insert" and e.table == "features"]
+                    fid = p.ctx.stash["fid"]
+                    if len(ins) == 1 and isinstance(ins[0].args, (list, tuple)) and len(ins[0].args) == 12:
+                        goal = z3.And(_streq(ins[0].args[0], fid), _streq(p.value.id, fid))
+                U.prove("C04.%s.step.key[preset=%s]#p%d" % (fmt, preset, p.index), "the row is inserted under the id_spec key (the value of the ID attribute) whatever `id` the Feature object carried before", p.pc, goal, {}, replay=replay)
+
+
 def unit_gtf_spec(U):
     """the id_spec handed to the GTF importer is used entry by entry as given, whatever the relation keys are (shared with C03)"""
     from props import C03
     C03.unit_gtf_init_for("C04")(U)
 
 
-UNITS = [("schema", unit_schema), ("gtf_spec", unit_gtf_spec), ("default_spec", unit_default_spec), ("id_handler", unit_id_handler), ("autoid", unit_autoid), ("getitem", unit_getitem), ("bounded", unit_bounded)]
+UNITS = [("schema", unit_schema), ("step_key", unit_step_key), ("gtf_spec", unit_gtf_spec), ("default_spec", unit_default_spec), ("id_handler", unit_id_handler), ("autoid", unit_autoid), ("getitem", unit_getitem), ("bounded", unit_bounded)]
 
 
 def replay_file(doc):
